@@ -439,8 +439,9 @@ def check_accessors(cx, spec, A, x, coded, atoms, rng, desc, replay, name=None):
         ro = [(int(k), dec(v)) for k, v in zip(r.keys(), r.values())]
         want = [(k, c) for k, c in coded if spec_f(k, c)]
         if ro != want:
-            bad('filter', f'x.filter({nm_}) = {ro}, expected {want}; stored {coded}')
-        checks.append(f'mv_eqb {mterm} {mt}) {oc.mv_term(ro)}')
+            bad('filter', f'x.filter({nm_}) = {ro} (raw values {list(r.values())[:6]}), expected {want}; stored {coded}')
+        if all(c is not None for _, c in ro):
+            checks.append(f'mv_eqb {mterm} {mt}) {oc.mv_term(ro)}')
     if atoms.vtype in ('int', 'Fraction', 'float') and nodup:
         R.count('accessor=filter-default')
         r = x.filter()
